@@ -240,10 +240,28 @@ pub fn supervise(args: &[String]) -> i32 {
     }
     let mut agg = Agg::default();
     let mut alive = workers;
+    let mut last_msg = Instant::now();
+    let mut first_violation_at: Option<Instant> = None;
     while alive > 0 {
-        let msg = match rx.recv_timeout(std::time::Duration::from_secs_f64(budget + 120.0)) {
-            Ok(m) => m,
+        // once a violation is in hand the verdict is settled: give the other workers a little
+        // time to finish what they are in (a lower-numbered run may fail too), then stop. Trees
+        // that make threads spin would otherwise burn millions of steps in every remaining run.
+        if !agg.violations.is_empty() {
+            let t = *first_violation_at.get_or_insert_with(Instant::now);
+            if t.elapsed().as_secs_f64() > 10.0 {
+                kill_children();
+                break;
+            }
+        }
+        let msg = match rx.recv_timeout(std::time::Duration::from_secs_f64(1.0)) {
+            Ok(m) => {
+                last_msg = Instant::now();
+                m
+            }
             Err(_) => {
+                if last_msg.elapsed().as_secs_f64() < budget + 120.0 {
+                    continue;
+                }
                 let stuck: Vec<String> = ws.iter().enumerate().filter_map(|(w, x)| x.in_progress.map(|i| format!("worker {} in run {}", w, i))).collect();
                 agg.harness_errors.push(format!("supervisor timed out waiting for workers ({})", stuck.join(", ")));
                 kill_children();
